@@ -217,6 +217,10 @@ def run_one(m, wk, props_filter, pbf, claimed_set, suite_only=False):
     orig = open(os.path.join(REPO, m["file"])).read()
     new = orig[: m["start"]] + m["after"] + orig[m["end"]:]
     res = {k: m[k] for k in ("id", "file", "line", "op", "before", "after")}
+    if orig[m["start"]: m["end"]] != m["before"]:
+        res["suite"] = "stale"      # /repo changed since the mutant list was generated
+        res["checks"] = {}
+        return res
     env = dict(os.environ, PYTHONDONTWRITEBYTECODE="1")
     try:
         with open(path, "w") as f:
@@ -263,6 +267,9 @@ def cmd_run(a):
         for l in open(a.out):
             done.add(json.loads(l)["id"])
     muts = [m for m in muts if m["id"] not in done]
+    if a.only_suite_pass_from:
+        ok = {json.loads(l)["id"] for l in open(a.only_suite_pass_from) if json.loads(l)["suite"] == "pass"}
+        muts = [m for m in muts if m["id"] in ok]
     pbf = props_by_file()
     cl = claimed()
     pf = set(a.props.split(",")) if a.props else None
@@ -328,6 +335,7 @@ def main():
     r.add_argument("--jobs", type=int, default=12)
     r.add_argument("--props", default=None)
     r.add_argument("--suite-only", action="store_true")
+    r.add_argument("--only-suite-pass-from", default=None, help="results file of a --suite-only run: only mutants that passed the suite there are run")
     p = sub.add_parser("report")
     p.add_argument("--in", dest="inp", required=True)
     p.add_argument("--list", action="store_true")
